@@ -234,6 +234,34 @@ def k3_artefacts(actual: str, ref: str) -> bool:
     return _lines_equal_mod_final_newline(raw, actual.splitlines())
 
 
+def k3_file_artefacts(actual: str, ref: str, in_tmp: bool) -> bool:
+    """
+    pre: len(actual) <= P['nc'] and len(ref) <= P['nc']
+    post: __return__
+    """
+    # file-vs-file: whatever the artefacts are called, the two files compared are never written to - also when
+    # the actual file itself lies in the temporary directory under the library's own actual-<name> convention
+    apath = (TMP + '/actual-r.txt') if in_tmp else '/out/a.txt'
+    fs = fakefs.FakeFS({'/ref/r.txt': ref, apath: actual}, dirs=[TMP, '/ref', '/out'])
+    saved_marker = FilesComparison.diff_marker
+    FilesComparison.diff_marker = lambda self, left, right: '<>'
+    try:
+        with fakefs.patched(fs, cf, bc):
+            fc = FilesComparison(verbose=False, tmp_dir=TMP)
+            code, msgs = fc.check_file(apath, '/ref/r.txt', remove_lines=['!'], ignore_substrings=['#'])
+    finally:
+        FilesComparison.diff_marker = saved_marker
+    if fs.files.get('/ref/r.txt') != ref or fs.files.get(apath) != actual or fs.deleted():
+        return False
+    if code == 0:
+        return fs.written() == []
+    for w in fs.written():
+        if not w.startswith(TMP + '/') or w in (apath, '/ref/r.txt'):
+            return False
+    named = _named_paths(msgs)
+    return bool(named) and all(fs.exists(p_) for p_ in named) and apath in named
+
+
 def lift_artefacts(actual, ref):
     """public API with real files"""
     import os
@@ -306,6 +334,12 @@ def _obs():
                               '; encoding=%r' % enc if enc else ''),
                       param={'rem': rem, 'ign': ign, 'pre': pre, 'nc': nc, 'enc': enc}, timeout=to, tier=tier,
                       lift=None if enc else 'lift_artefacts', stubs=['fakefs', 'diff_marker -> constant']))
+    obs.append(Ob('K3', 'k3_file_artefacts', 'file-vs-file with exclusions: a pass writes nothing; a failure writes only '
+                  'new files under tmp_dir - the actual and reference files keep their content even when the actual '
+                  'file is tmp_dir/actual-<reference name> - and names a command whose files exist, the actual among '
+                  'them', 'actual, reference text: any strings len<=2; remove_lines=[!] ignore_substrings=[#]; actual '
+                  'file inside or outside tmp_dir', param={'nc': 2}, timeout=400,
+                  stubs=['fakefs', 'diff_marker -> constant']))
     return obs
 
 
